@@ -124,7 +124,11 @@ TrNoDecision(ev) ==
 
 \* ---------------------------------------------------------------- conflict analysis
 TrExplain(ev) ==
-    /\ Mon("C17.ExplainTrue", MonExplainTrue(ev.reason), <<ev.p, ev.reason>>)
+    \* (after a failed assumption the variable's domain is empty: its bounds crossed and the code
+    \* treats both bounds as true, core extraction relies on that)
+    /\ Mon("C17.ExplainTrue",
+           \A i \in DOMAIN ev.reason : DomOf(ev.reason[i]) = {} \/ EvalNow(ev.reason[i]) = "T",
+           <<ev.p, ev.reason>>)
     /\ CASE ev.kind = "implicit" ->
               Mon("C02.ImplicitSound", MonImplicitSound(ev.p, ev.reason), <<ev.p, ev.reason>>)
          [] ev.kind = "explicit" ->
